@@ -15,7 +15,8 @@ RULE = (
     '/ rising) plus 0-2 planted groups in a disjoint level band, each '
     'strictly smaller than the main group both in levels and in series; '
     'the collection is presented in a generated permutation and every '
-    'series gets its own constant shift on its abscissa. Collections whose '
+    'series gets its own constant shift on its abscissa (the same ordinate '
+    'arrays are handed to both calls, as a caller holding its interval objects would). Collections whose '
     'main body is not strictly largest by both counts are outside the domain '
     '(rejected, counted). Oracle: the returned indices are exactly the main '
     'body (mapped back through the permutation) in both presentations; '
@@ -114,7 +115,10 @@ def check(case):
         raise Reject('a main series shares no level')
     span = max(s['x'][-1] - s['x'][0] for s in collection)
 
-    idx0, off0, map0 = run_gsto(collection, h)
+    # the caller's own interval objects, kept between the two presentations
+    ys = [np.array(s['y'], dtype='float64') for s in collection]
+    xs = [np.array(s['x'], dtype='float64') for s in collection]
+    idx0, off0, map0 = run_gsto(collection, h, arrays=list(zip(xs, ys)))
     if set(idx0) != main_ids:
         missing = sorted(main_ids - set(idx0))
         extra = sorted(set(idx0) - main_ids)
@@ -124,12 +128,8 @@ def check(case):
     off0 = {int(i): float(o) for i, o in zip(idx0, off0)}
 
     perm = case['perm']
-    moved = []
-    for j in perm:
-        s = collection[j]
-        moved.append({'x': [v + case['shifts'][j] for v in s['x']],
-                      'y': s['y']})
-    idx1, off1, map1 = run_gsto(moved, h)
+    moved = [(xs[j] + case['shifts'][j], ys[j]) for j in perm]
+    idx1, off1, map1 = run_gsto(None, h, arrays=moved)
     back = {pos: j for pos, j in enumerate(perm)}
     got_ids = {back[int(i)] for i in idx1}
     if got_ids != main_ids:
